@@ -295,6 +295,11 @@ def hdl21_naming_encoder(obj: Any) -> Any:
         # Mix the qualified class names/paths with the parameters
         return module_qualname(obj.module) + _unique_name(obj.params)
 
+    if isinstance(obj, (set, frozenset)):
+        # Sets iterate in hash order, which differs from one process to the next.
+        # Name them by the sorted encodings of their elements.
+        return sorted(json.dumps(e, default=hdl21_naming_encoder) for e in obj)
+
     # Dataclasses also require custom handling, as the default encoder deep-copies them,
     # often invoking methods not supported on several Hdl21 types.
     # Convert to (shallow) dictionaries instead.
